@@ -80,3 +80,21 @@ Print Assumptions rspawn_failure_exit_codes.
 Example K_nonvacuous :
   r_verdict (smtp 1 true [50;50;48;10; 50;53;48;45;120;10;50;53;48;32;111;10; 50;53;48;10; 50;53;48;10; 51;53;52;10; 50;53;48;10]) = VK.
 Proof. vm_compute. reflexivity. Qed.
+
+(* ---- whose exit status is reported (spawn.c, one delivery slot as a concurrent system) ----
+   report() runs when the report pipe reaches end of file and is given d[i].wstat.  Remote/SpawnSlot.v models the
+   spawner's loop and SIGCHLD handler against the child and the kernel, for every interleaving. *)
+From NQ Require Remote.SpawnSlot Remote.SpawnSlotProofs.
+Theorem every_report_carries_its_own_childs_status : forall tr s' outs,
+  SpawnSlot.run true SpawnSlot.init tr = Some (s', outs) -> Forall SpawnSlot.honest outs.
+Proof. exact SpawnSlotProofs.reports_honest. Qed.
+Print Assumptions every_report_carries_its_own_childs_status.
+Theorem one_report_per_finished_command : forall keep tr s' outs, SpawnSlot.run keep SpawnSlot.init tr = Some (s', outs) ->
+  (length outs + (if SpawnSlot.used s' then 1 else 0) = length (filter (fun e => match e with SpawnSlot.ECmd => true | _ => false end) tr))%nat.
+Proof. exact SpawnSlotProofs.one_report_per_command. Qed.
+Print Assumptions one_report_per_finished_command.
+Theorem without_the_spawners_write_end_a_stale_status_is_reported :
+  exists s' outs, SpawnSlot.run false SpawnSlot.init SpawnSlotProofs.bad_trace = Some (s', outs) /\
+                  existsb (fun r => negb (SpawnSlot.honestb r)) outs = true.
+Proof. exact SpawnSlotProofs.without_own_write_end_refuted. Qed.
+Print Assumptions without_the_spawners_write_end_a_stale_status_is_reported.
